@@ -42,17 +42,20 @@ Inductive wkind :=
                       on the argument that was copied (ast.py:581-587) *)
 | WOther.          (* any other field of a class/symbol/equation of the parsed tree *)
 
-(* the three exact writes are allowed anywhere; any other write only without copy-on-lookup, and
-   then only below the requested class *)
-Definition allowed (cp : bool) (req : path) (x : path * wkind) : bool :=
+(* the exact writes are allowed anywhere — the constant-symbol write only while the code still renames the
+   caller's Symbol object in place (ci = true, read from tree.py ConstantReferenceApplier on every run; false with
+   fixes/C06_constant_symbol_copy.diff); any other write only without copy-on-lookup, and then only below the
+   requested class *)
+Definition allowed (cp ci : bool) (req : path) (x : path * wkind) : bool :=
   match snd x with
   | WOther => if cp then false else is_some (strip req (fst x))
+  | WConstSym => ci
   | _ => true
   end.
 
-(* a case: the copy= literal read from tree.py, the requested class, the observed writes *)
-Definition check_case (c : bool * path * list (path * wkind)) : bool :=
-  let '(cp, req, ws) := c in forallb (allowed cp req) ws.
+(* a case: the copy= literal read from tree.py, the constants-in-place flag, the requested class, the observed writes *)
+Definition check_case (c : bool * bool * path * list (path * wkind)) : bool :=
+  let '(cp, ci, req, ws) := c in forallb (allowed cp ci req) ws.
 
 (* ==== the fields of parsed-tree objects that a request writes even with copy-on-lookup ==========
    They are kept beside the tree (`xmap`: class path -> ext) so that Lib/ObjGraph's cdata stays
